@@ -274,6 +274,27 @@ func (m *Model) Paths() map[string]*Link {
 	return out
 }
 
+// Objects lists every object reachable through hard links once (graph walk by object identity, not by path).
+func (m *Model) Objects() []*Obj {
+	seen := map[int]bool{m.Root.ID: true}
+	out := []*Obj{m.Root}
+	for i := 0; i < len(out); i++ {
+		o := out[i]
+		names := make([]string, 0, len(o.Links))
+		for n := range o.Links {
+			names = append(names, n)
+		}
+		sort.Strings(names)
+		for _, n := range names {
+			if l := o.Links[n]; l.Kind == "hard" && !seen[l.Obj.ID] {
+				seen[l.Obj.ID] = true
+				out = append(out, l.Obj)
+			}
+		}
+	}
+	return out
+}
+
 // resolveTarget resolves a link target: an object (through hard links), or the soft/external link a path names.
 func (m *Model) resolveTarget(p string) (*Obj, *Link) {
 	if o := m.Resolve(p); o != nil {
